@@ -85,7 +85,10 @@ func vRunCase6(t *testing.T, c vCase) (msg string) {
 				heldBufs = append(heldBufs, backing)
 				heldSnap = append(heldSnap, before)
 				heldName = append(heldName, cl.name)
-				cl.f(s)
+				func() {
+					defer func() { _ = recover() }() // a panicking call is another property's business; the buffers are compared all the same
+					cl.f(s)
+				}()
 				if !bytes.Equal(before, backing) {
 					for i := range before {
 						if before[i] != backing[i] {
@@ -153,9 +156,13 @@ func vRunCase6(t *testing.T, c vCase) (msg string) {
 				d1, b1 := vLayout(bytes.Repeat([]byte{0x51}, lens[0]), 1)
 				m1, mb1 := vLayout(bytes.Repeat([]byte{0x52}, 48), 1)
 				before, mbefore := append([]byte{}, b1...), append([]byte{}, mb1...)
-				fn(m1, d1)
-				fn(bytes.Repeat([]byte{0x61}, 17), bytes.Repeat([]byte{0x62}, lens[1]))
-				fn(bytes.Repeat([]byte{0x63}, 48), bytes.Repeat([]byte{0x64}, lens[1]+1))
+				safe := func(m, d []byte) {
+					defer func() { _ = recover() }()
+					fn(m, d)
+				}
+				safe(m1, d1)
+				safe(bytes.Repeat([]byte{0x61}, 17), bytes.Repeat([]byte{0x62}, lens[1]))
+				safe(bytes.Repeat([]byte{0x63}, 48), bytes.Repeat([]byte{0x64}, lens[1]+1))
 				if !bytes.Equal(before, b1) || !bytes.Equal(mbefore, mb1) {
 					return "a later hashing call wrote into the DST/message buffer passed to an earlier call (|dst| " + itoa(lens[0]) + " then " + itoa(lens[1]) + ")"
 				}
